@@ -175,22 +175,7 @@ def check(ctx):
     wr = [a for a in guards.accesses(cb, SM, {"keep_streams_running"}) if a["kind"] == "w"]
     ctx.ob("R06.4", f"{SM}|cancel-clears-the-flag-poll-reads", bool(rd) and bool(wr), f"{cb.f['file']}:{cb.f['line']}", "cancel_stream writes keep_streams_running[..], keep_stream_running reads the same array")
     # ------------------------------------------------------------------ R06.6 helpers the close machinery stands on
-    for fn, callee in (("wake_all_streams", "wake_stream"), ("is_any_stream_running", "keep_stream_running")):
-        kf = SM + "::" + fn
-        fb = Body(fx.fn(kf)); fd = D.Dag(fb)
-        rng = None
-        for b in fb.reachable:
-            for st in fb.stmts(b):
-                if st[0] == "A" and st[2][0] == "Agg" and st[2][1][0] == "Adt" and st[2][1][1].endswith("ops::Range"):
-                    rng = [strip_casts(fd.expr(o)) for o in st[2][2]]
-        cs = [(b, c) for (b, c) in fb.calls if (c.get("resolved") or c.get("f")) == SM + "::" + callee]
-        ok = rng is not None and rng[0] == ("const", 0) and rng[1] == ("gconst", "MAX_STREAMS") and len(cs) == 1 and util.in_loop(fb, cs[0][0])
-        if ok:
-            h = [h for h, bl in fb.loops.items() if cs[0][0] in bl][0]
-            lo, hi = util.count_per_iteration(fb, h, lambda b: b == cs[0][0])
-            arg = show(fd.expr(cs[0][1]["args"][1]))
-            ok = (lo, hi) == (1, 1) and "next" in arg
-        ctx.ob("R06.6", f"{kf}|visits-every-stream-id", ok, f"{fb.f['file']}:{fb.f['line']}", f"{fn} visits every id of 0..MAX_STREAMS (range {[show(x) for x in rng] if rng else None}) and calls {callee}(id) once per id")
+    check_sweeps(ctx)
     kb2 = Body(fx.fn(SM + "::keep_stream_running")); kd2 = D.Dag(kb2)
     idx = [(b, c) for (b, c) in kb2.calls if c.get("fname") in ("get_unchecked", "index")]
     ok = len(idx) == 1 and strip_casts(kd2.expr(idx[0][1]["args"][1]))[:2] == ("param", 2) and "keep_streams_running" in str(kd2.expr(idx[0][1]["args"][0]))
@@ -221,3 +206,25 @@ def check(ctx):
                 ok = f.get("impl_self") == STREAM and f.get("impl_trait") == "std::ops::Drop"
                 ctx.ob("R06.5", f"{f['key']}|calls|drop_resources", ok, body.loc(b), "the running-stream count drops only when the stream object itself is dropped (Drop for MutinyStream): the executor drops it after the pipeline finished")
     ctx.floor("R06.1", 12); ctx.floor("R06.3", 13); ctx.floor("R06.4", 12); ctx.floor("R06.5", 1); ctx.floor("R06.6", 14)
+
+
+def check_sweeps(ctx, only=None):
+    """R06.6: wake_all_streams / is_any_stream_running visit every id of 0..MAX_STREAMS and call their per-id function once per id"""
+    fx = ctx.fx
+    for fn, callee in (("wake_all_streams", "wake_stream"), ("is_any_stream_running", "keep_stream_running")):
+        if only and fn not in only: continue
+        kf = SM + "::" + fn
+        fb = Body(fx.fn(kf)); fd = D.Dag(fb)
+        rng = None
+        for b in fb.reachable:
+            for st in fb.stmts(b):
+                if st[0] == "A" and st[2][0] == "Agg" and st[2][1][0] == "Adt" and st[2][1][1].endswith("ops::Range"):
+                    rng = [strip_casts(fd.expr(o)) for o in st[2][2]]
+        cs = [(b, c) for (b, c) in fb.calls if (c.get("resolved") or c.get("f")) == SM + "::" + callee]
+        ok = rng is not None and rng[0] == ("const", 0) and rng[1] == ("gconst", "MAX_STREAMS") and len(cs) == 1 and util.in_loop(fb, cs[0][0])
+        if ok:
+            h = [h for h, bl in fb.loops.items() if cs[0][0] in bl][0]
+            lo, hi = util.count_per_iteration(fb, h, lambda b: b == cs[0][0])
+            arg = show(fd.expr(cs[0][1]["args"][1]))
+            ok = (lo, hi) == (1, 1) and "next" in arg
+        ctx.ob("R06.6", f"{kf}|visits-every-stream-id", ok, f"{fb.f['file']}:{fb.f['line']}", f"{fn} visits every id of 0..MAX_STREAMS (range {[show(x) for x in rng] if rng else None}) and calls {callee}(id) once per id")
